@@ -257,6 +257,8 @@ class Shell:
                     print("Eval error: cannot assign to symbol.")
             elif isinstance(ltree, (InfixNode, PrefixNode)):
                 print("Eval error: cannot assign to arithmetic expression.")
+            elif isinstance(ltree, IntNode):
+                print("Eval error: cannot assign to integer literal.")
             else:
                 raise RuntimeError(
                     "unknown node type {}".format(ltree.__class__.__name__)
